@@ -1,20 +1,34 @@
 #!/bin/sh
-# reverts each fix commit on a scratch worktree and runs the quick check(s) that must re-raise the violation
-while read C PROPS; do
-  for P in $PROPS; do
-    R=$(/verif/tools/with_tree.sh revert $C -- $P 2>&1 | grep -E "^exit=|VIOLATION" | head -2 | tr '\n' ' ')
-    echo "$C $P :: $R"
+# reverts each fix commit (or group of commits) on a scratch worktree of /repo HEAD and runs the quick check(s) that must re-raise it
+run() { # $1 = commits (space separated, newest first), rest = properties
+  COMMITS=$1; shift
+  for P in "$@"; do
+    T=$(mktemp -d /tmp/mabw_rev.XXXXXX)
+    git -C /repo worktree add -q --detach "$T" HEAD
+    OK=1
+    for C in $COMMITS; do git -C "$T" revert --no-commit $C >/dev/null 2>&1 || OK=0; done
+    if [ $OK = 1 ]; then
+      R=$(cd /verif && MABWISER_REPO="$T" VERIF_NO_EVIDENCE=1 ./check $P 2>&1 | grep -E "VIOLATION" | head -1)
+      echo "revert [$COMMITS] -> $P :: ${R:-NOT RE-RAISED}"
+    else
+      echo "revert [$COMMITS] -> $P :: revert does not apply cleanly"
+    fi
+    git -C /repo worktree remove --force "$T"; git -C /repo worktree prune
   done
-done <<LIST
-2633d4c C01 C06
-7b11de1 C05 C06 C15
-3e10198 C07
-3caa3ab C09 C07
-3b0f8c5 C04 C18
-721708b C17
-e8e8971 C17
-3d42362 C02
-d4fe745 C14
-2ab3814 C15
-1a94622 C08
-LIST
+}
+run 2633d4c C01
+run 7b11de1 C05 C15
+run 3e10198 C07
+run 3caa3ab C09 C07
+run 3b0f8c5 C04 C18
+run 721708b C17
+run e8e8971 C17
+run 3d42362 C02
+run d4fe745 C14
+run 2ab3814 C15
+run 1a94622 C08
+run c5da52e C17
+run af012bc C17
+run f2c727c C17
+run "c0b6a38 ce960b9" C15 C16
+run c0b6a38 C15
